@@ -495,7 +495,12 @@ def run_pipeline(
         # Prepare the final dictionary to construct the `DataTree`.
         dct: dict[str, xr.Dataset | xr.DataTree | None] = {}
 
-        if not detector.scene.data.is_empty and not with_inherited_coords:
+        # Note: 'DataTree.is_empty' does not look at the children, a 'Scene' with
+        #       sources only contains children (e.g. '/list/0')
+        has_scene: bool = (
+            not detector.scene.data.is_empty or len(detector.scene.data.children) != 0
+        )
+        if has_scene and not with_inherited_coords:
             warnings.warn(
                 "The 'Scene' container is not empty.\n"
                 "To ensure proper behavior, the 'with_inherited_coords' parameter must be set to True when calling 'pyxel.run_mode'.\n"
